@@ -520,9 +520,51 @@ func c10R2(p *core.Prog, r *core.Report, rule string) {
 	// delete: invalidation dominates every request-issuing call
 	var first ssa.CallInstruction
 	for _, cc := range calls {
-		if cc.fn == del && cc.method == "Delete" {
+		if _, isCall := cc.c.(*ssa.Call); cc.fn == del && cc.method == "Delete" && isCall && first == nil {
 			first = cc.c
 		}
+	}
+	// … and drops it again once the fallback tag has been rewritten: between the first invalidation and
+	// the lock another update of the same subject can run to completion and cache its list (found D25)
+	{
+		var lock ssa.Instruction
+		core.Calls(del, func(c ssa.CallInstruction) {
+			if _, op := core.MutexOp(c); op == "lock" && lock == nil {
+				lock = c.(ssa.Instruction)
+			}
+		})
+		again := false
+		for _, cc := range calls {
+			if cc.fn != del || (cc.method != "Delete" && cc.method != "Set") || lock == nil {
+				continue
+			}
+			in := cc.c.(ssa.Instruction)
+			if !core.DominatesInstr(lock, in) {
+				continue
+			}
+			if _, isDefer := cc.c.(*ssa.Defer); isDefer {
+				again = true // runs when the function returns, before the deferred unlock registered earlier
+				continue
+			}
+			// an explicit call: it has to lie behind every rewrite of the tag
+			behind := true
+			core.Calls(del, func(w ssa.CallInstruction) {
+				cal := core.Callee(w)
+				if cal == nil || !(core.IsModMethod(cal, "scheme/reg", "Reg", "ManifestPut") || core.IsModMethod(cal, "scheme/reg", "Reg", "TagDelete")) {
+					return
+				}
+				seen := core.Reach{Stop: func(x ssa.Instruction) bool { return x == in }}.FromInstr(w.(ssa.Instruction))
+				for x := range seen {
+					if ret, isRet := x.(*ssa.Return); isRet && !failureReturn(del, ret) {
+						behind = false
+					}
+				}
+			})
+			if behind {
+				again = true
+			}
+		}
+		r.Check(again, rule, p.FuncName(del), "delete invalidates again under the lock", p.Pos(del.Pos()), "after the fallback tag was rewritten the subject's cached list is not dropped (or replaced) under the lock: a push for the same subject that ran between the first invalidation and the lock has cached a list that still names the deleted referrer")
 	}
 	if first == nil {
 		r.Violated(rule, p.FuncName(del), "delete invalidates first", p.Pos(del.Pos()), "referrerDelete does not invalidate the subject's cached referrer list")
